@@ -21,7 +21,7 @@ LAYER = {1: "invariant: PkgOK (manifest file entries = package files, each once;
          7: "rdf-entry: save deleted a manifest.rdf that the manifest lists with an empty media type and kept the entry",
          6: "twin: an operation on one of original / clone broke PkgOK of the other (shared state); saving the other gives a zip its manifest does not describe",
          8: "bookkeeping: the invariant the theorems assume (unique keys, current folder time stamps, cached XML parts only) is lost"}
-WEIGHTS = dict(addfile=6, frame=2, **{"del": 4}, delmandatory=1, **{"import": 2}, set=1, get=1, touch=1, edit=1, save=4, saveself=1, reopen=3, clone=2, clone2=1, swap=2)
+WEIGHTS = dict(addfile=6, frame=2, **{"del": 4}, delmandatory=1, **{"import": 2}, set=1, get=1, touch=1, edit=1, save=4, saveself=1, reopen=3, clone=2, clone2=1, swap=2, merge=3, delpic=2)
 
 
 def zip_problems(entries):
@@ -81,6 +81,21 @@ def make_histories(tier, rng):
     # F42: manifest.rdf listed with an empty media type (Manifest.add_full_path's default), then save
     for st in starts[:2]:
         hs.append([dict(st), dict(op="import", name="manifest.rdf", data="<rdf/>", mt=""), dict(SV), dict(op="reopen", r=1)])
+    # the real merge_styles_from with sources whose master-page / fill-image styles reference images, interleaved with
+    # add_file / del_part of the SAME names before and after the merge; template, path-opened and buffer-opened destinations
+    PIC = pkglib.POOL[0]
+    SRC = [dict(base="text", ext=".png", fill=[PIC], master=[]), dict(base="text", ext=".png", fill=[], master=[PIC]),
+           dict(base="presentation", ext=".png", fill=[PIC, pkglib.POOL[1]], master=[PIC])]
+    img_samples = [s for s in S if s.endswith(("background.odp", "example.odp"))]
+    SRC += [dict(base=s) for s in img_samples]
+    dests = starts[:4] + [dict(op="open", src=s, buf=b) for s in (img_samples + small[:2]) for b in (False, True)] + [dict(op="copyopen", src=s) for s in img_samples]
+    k = 0
+    for st in dests:
+        for src in (SRC if tier != "quick" else SRC[k % 2::2]):
+            k += 1
+            M = dict(op="merge", source=src)
+            hs.append([dict(st), dict(M), dict(SV), dict(op="delpic", r=k), dict(M), dict(SV), dict(op="reopen", r=1), dict(op="delpic", r=k + 1), dict(SP)])
+            hs.append([dict(st), dict(A), dict(op="delpic", r=k), dict(M), dict(SV), dict(A), dict(op="delpic", r=k + 2), dict(A), dict(M), dict(SP), dict(op="reopen", r=2), dict(M), dict(SV)])
     # twins: clone, operate on one, save / inspect the other — in both directions
     for st in starts + [dict(op="open", src=s, buf=b) for s in small[:: (9 if tier == "quick" else 2)] for b in (False, True)]:
         for op in (dict(A), dict(B), dict(op="del", r=3), dict(op="import", name="Pictures/tw.png", data="tw", mt="image/png"), dict(op="set", r=5)):
